@@ -110,10 +110,10 @@ TRANSLATOR_TIES = {
         "module": "Proofs.MapIter",
         "claim": "Source tie of the map iterations (translator T5, re-run on every check): every place where the library "
                  "iterates a Go map - a range over a map value, (reflect.Value).MapKeys, (reflect.Value).MapRange - is listed "
-                 "with go/ssa, and the obligation map_iterations_audited re-checks that each is one of the eight audited sites "
+                 "with go/ssa, and the obligation map_iterations_audited re-checks that each is one of the ten audited sites "
                  "of Liquid/MapIterFacts.lean (keys sorted before use: SortedMapKeys, ParentTags, makeIterationKeyedMap; every "
-                 "entry copied into a fresh map: Clone, newNodeContext, RenderFile, Convert; a conjunction over all entries: "
-                 "equalMaps); a new map iteration in the source, or an audited sorter whose function no longer calls into package sort (that is all that is "
+                 "entry copied into a fresh map: Clone, newNodeContext, RenderFile, Convert, resolveDrops; a conjunction over all entries: "
+                 "equalMaps, eqItems); a new map iteration in the source, or an audited sorter whose function no longer calls into package sort (that is all that is "
                  "checked of 'sorted before use'), breaks the check.",
         "trusted": "translator T5 (translate/mapiter.go, go/ssa, nothing executed) lists ssa.Range instructions over map types and "
                    "static calls of reflect.Value.MapKeys / MapRange in the library packages; the justification of each audited site "
